@@ -72,6 +72,13 @@ type Plan struct {
 	// Production20ms uses the production slow-consumer timeout (only the blocking and
 	// ordering clauses apply then); otherwise the timeout is raised to 60 s.
 	Production20ms bool `json:"production_20ms,omitempty"`
+	// RelayBuf is the relay's buffer size (0 = 1000, the production value): with 1 or 2 a
+	// short burst saturates the relay inlet, which 40-frame writers never do at 1000.
+	RelayBuf int `json:"relay_buf,omitempty"`
+	// Abandoned streamers are opened with SendOpenAck on an unbuffered outlet and cancelled
+	// before anybody reads the acknowledgement; they must leave nothing behind that slows
+	// the writers down.
+	Abandoned int `json:"abandoned,omitempty"`
 }
 
 func genPlan(t *rapid.T) Plan {
@@ -124,6 +131,10 @@ func genPlan(t *rapid.T) Plan {
 			}
 		}
 		p.Streamers = append(p.Streamers, s)
+	}
+	p.RelayBuf = rapid.SampledFrom([]int{0, 0, 0, 1, 2, 8}).Draw(t, "relay_buf")
+	if rapid.IntRange(0, 4).Draw(t, "abandon") == 0 {
+		p.Abandoned = rapid.IntRange(1, 2).Draw(t, "abandoned")
 	}
 	if rapid.IntRange(0, 6).Draw(t, "wide") == 0 {
 		w := &WidePlan{N: rapid.IntRange(128, 140).Draw(t, "wide_n"), Frames: rapid.IntRange(1, 8).Draw(t, "wide_frames")}
@@ -191,8 +202,13 @@ func run(p Plan, rep *kit.Report) (err error) {
 		timeout = 20 * time.Millisecond
 		rep.Class("production-timeout")
 	}
+	relayBuf := 1000
+	if p.RelayBuf > 0 {
+		relayBuf = p.RelayBuf
+		rep.Class("small-relay-buffer")
+	}
 	db, oerr := cesium.Open(ctx, "", cesium.WithFS(xfs.NewMem()),
-		cesium.WithVerifStreamingConfig(cesium.DBStreamingConfig{BufferSize: 1000, SlowConsumerTimeout: timeout}))
+		cesium.WithVerifStreamingConfig(cesium.DBStreamingConfig{BufferSize: relayBuf, SlowConsumerTimeout: timeout}))
 	if oerr != nil {
 		return kit.Fail("setup", "open: %v", oerr)
 	}
@@ -260,6 +276,29 @@ func run(p Plan, rep *kit.Report) (err error) {
 			rep.Class("stalled-consumer")
 		}
 		ss = append(ss, st)
+	}
+	// ---- abandoned streamers: cancelled while the open acknowledgement is still undelivered
+	for i := 0; i < p.Abandoned && len(p.Writers) > 0; i++ {
+		as, aerr := db.NewStreamer(ctx, cesium.StreamerConfig{Channels: []uint32{p.Writers[0].Key}, SendOpenAck: true})
+		if aerr != nil {
+			return kit.Fail("setup", "NewStreamer(abandoned): %v", aerr)
+		}
+		ain := confluence.NewStream[cesium.StreamerRequest](0)
+		aout := confluence.NewStream[cesium.StreamerResponse](0) // nobody ever reads it
+		as.InFrom(ain)
+		as.OutTo(aout)
+		actx, acancel := signal.Isolated()
+		as.Flow(actx, confluence.CloseOutputInletsOnExit())
+		runtime.Gosched()
+		acancel()
+		waited := make(chan struct{})
+		go func() { _ = actx.Wait(); close(waited) }()
+		select {
+		case <-waited:
+		case <-time.After(60 * time.Second):
+			return kit.Fail("stall", "a streamer cancelled before its open acknowledgement was read did not stop within 60 s")
+		}
+		rep.Class("abandoned-streamer")
 	}
 	// ---- writers
 	var progress0 atomic.Int64
